@@ -199,7 +199,7 @@ func H_C03_Raise() {
 	rt.Assert("C02.raise-mints-nothing", rt.And(rt.IntEq(ee.Bank.SupplyOf("nund"), sdk.ZeroInt()), ee.Bank.Sends == bankWrites))
 	if err != nil {
 		rt.Reach("raise-rejected")
-		rt.Assert("C03.rejected-raise-changes-nothing", ee.MS.SameAs(snap))
+		rt.Assert("C03+C13+C14.rejected-raise-changes-nothing", ee.MS.SameAs(snap))
 		return
 	}
 	rt.Reach("raise-ok")
@@ -277,7 +277,7 @@ func H_C03_Decide() {
 	rt.Assert("C03.decide-accepted-iff-entitled", rt.Iff(err == nil, expectOK))
 	if err != nil {
 		rt.Reach("decide-rejected")
-		rt.Assert("C03.rejected-decision-changes-nothing", ee.MS.SameAs(snap))
+		rt.Assert("C03+C13+C14.rejected-decision-changes-nothing", ee.MS.SameAs(snap))
 		return
 	}
 	rt.Reach("decide-ok")
@@ -330,7 +330,7 @@ func H_C03_Whitelist() {
 	rt.Assert("C03.whitelist-accepted-iff", rt.Iff(err == nil, expectOK))
 	if err != nil {
 		rt.Reach("whitelist-rejected")
-		rt.Assert("C03.rejected-whitelist-changes-nothing", ee.MS.SameAs(snap))
+		rt.Assert("C03+C13+C14.rejected-whitelist-changes-nothing", ee.MS.SameAs(snap))
 		return
 	}
 	rt.Reach("whitelist-ok")
@@ -428,8 +428,8 @@ func H_C03_BeginBlock() {
 		po, _ := k.GetPurchaseOrder(ctx, accepted[i].Id)
 		want := accepted[i]
 		want.Status = enttypes.StatusCompleted
-		rt.Assert("C03.accepted-completed-next-block", orderEq(po, want))
-		rt.Assert("C03.completed-leaves-queues", rt.And(!k.PurchaseOrderIsInAcceptedQueue(ctx, want.Id), !k.PurchaseOrderIsInRaisedQueue(ctx, want.Id)))
+		rt.Assert("C02+C03.accepted-completed-next-block", orderEq(po, want))
+		rt.Assert("INV.E2-completed-in-no-queue", rt.And(!k.PurchaseOrderIsInAcceptedQueue(ctx, want.Id), !k.PurchaseOrderIsInRaisedQueue(ctx, want.Id)))
 		minted = minted.Add(want.Amount.Amount)
 		if want.Purchaser == Addr(0).String() {
 			add[0] = add[0].Add(want.Amount.Amount)
@@ -442,7 +442,7 @@ func H_C03_BeginBlock() {
 	}
 	rt.Assert("C02.supply-grows-by-completed-orders-only", rt.IntEq(ee.Bank.SupplyOf("nund"), supply0.Add(minted)))
 	rt.Assert("C02.nothing-burned", ee.Bank.Burned.IsZero())
-	rt.Assert("C03.locked-credited-exactly", rt.And(rt.IntEq(k.GetLockedUndAmountForAccount(ctx, Addr(0)).Amount, books.Locked[0].Add(add[0])),
+	rt.Assert("C03+C04.locked-credited-exactly", rt.And(rt.IntEq(k.GetLockedUndAmountForAccount(ctx, Addr(0)).Amount, books.Locked[0].Add(add[0])),
 		rt.IntEq(k.GetLockedUndAmountForAccount(ctx, Addr(1)).Amount, books.Locked[1].Add(add[1]))))
 	rt.Assert("C04.books-balance", booksBalanced(ee, books, books.Locked[0].Add(add[0]), books.Locked[1].Add(add[1]), books.Spent[0], books.Spent[1]))
 	rt.Assert("C05.mint-leaves-liquid-balance", rt.And(rt.IntEq(ee.Bank.Bal(Addr(0), "nund"), bal0), rt.IntEq(ee.Bank.Bal(Addr(1), "nund"), bal1)))
@@ -454,10 +454,10 @@ func H_C03_BeginBlock() {
 		want := raised[i]
 		want.CompletionTime = po.CompletionTime
 		want.Status = po.Status
-		rt.Assert("C03.tally-by-rule", rt.And(rt.Iff(po.Status == enttypes.StatusRejected, isRej), rt.And(rt.Iff(po.Status == enttypes.StatusAccepted, isAcc),
+		rt.Assert("C02+C03+C16.tally-by-rule", rt.And(rt.Iff(po.Status == enttypes.StatusRejected, isRej), rt.And(rt.Iff(po.Status == enttypes.StatusAccepted, isAcc),
 			rt.Iff(po.Status == enttypes.StatusRaised, rt.And(!isRej, !isAcc)))))
 		rt.Assert("C03.tally-touches-only-status", rt.And(orderEq(po, want), po.CompletionTime == rt.IteU64(po.Status == enttypes.StatusRaised, raised[i].CompletionTime, nowSec)))
-		rt.Assert("C03.tally-queues", rt.And(k.PurchaseOrderIsInRaisedQueue(ctx, want.Id) == (po.Status == enttypes.StatusRaised),
+		rt.Assert("INV.E2-queues-match-status", rt.And(k.PurchaseOrderIsInRaisedQueue(ctx, want.Id) == (po.Status == enttypes.StatusRaised),
 			k.PurchaseOrderIsInAcceptedQueue(ctx, want.Id) == (po.Status == enttypes.StatusAccepted)))
 		switch po.Status {
 		case enttypes.StatusAccepted:
@@ -521,4 +521,33 @@ func H_C14_ParamsThenBeginBlock() {
 	po, _ := k.GetPurchaseOrder(ctx, 3)
 	rt.Assert("C03.accepted-completed-despite-param-change", po.Status == enttypes.StatusCompleted)
 	_ = books
+}
+
+// H_C16_EntValidate: enterprise Params.Validate() == nil iff the statement's rule: well-formed
+// denomination, positive MinAccepts and DecisionTimeLimit, every listed signer well-formed, and
+// at least MinAccepts signers. The signer list is one of several shapes (incl. surrounding
+// whitespace, an empty element, a malformed address).
+func H_C16_EntValidate() {
+	A, B := Signer(0).String(), Signer(1).String()
+	type shape struct {
+		s         string
+		n         int  // number of listed entries
+		wellFormed bool // every entry decodes as written
+	}
+	shapes := []shape{{A, 1, true}, {A + "," + B, 2, true}, {A + ", " + B, 2, false}, {" " + A, 1, false}, {A + ",," + B, 3, false},
+		{"", 0, false}, {A + ",und1notanaddress", 2, false}, {A + "," + B + "," + Signer(2).String(), 3, true}}
+	sh := shapes[rt.Choose(len(shapes))]
+	p := enttypes.Params{EntSigners: sh.s, Denom: rt.Str("v.denom"), MinAccepts: rt.U64("v.minAccepts"), DecisionTimeLimit: rt.U64("v.decisionLimit")}
+	spec := rt.And(rt.And(sdk.ValidateDenom(p.Denom) == nil, rt.And(p.MinAccepts >= 1, p.DecisionTimeLimit >= 1)),
+		rt.And(sh.wellFormed, rt.IntLe(rt.IntOfU64(p.MinAccepts), sdk.NewInt(int64(sh.n)))))
+	rt.Assert("C16.ent-validate-iff-spec", rt.Iff(p.Validate() == nil, spec))
+	// the stored list is what the consumers use: every authorised signer they see is one of the listed entries
+	if p.Validate() == nil {
+		rt.Reach("valid")
+		ee := NewEntEnvOn(NewEnv(AnyBlockTime("now"), false), 1)
+		_, err := entkeeper.NewMsgServerImpl(ee.K).UpdateParams(sdk.WrapSDKContext(ee.Ctx), &enttypes.MsgUpdateParams{Authority: Authority(), Params: p})
+		rt.Assert("C16.ent-valid-update-accepted", err == nil)
+		usable := len(ee.K.GetParamEntSignersAsAddressArray(ee.Ctx))
+		rt.Assert("C16.ent-usable-signers>=min-accepts", rt.IntLe(rt.IntOfU64(p.MinAccepts), sdk.NewInt(int64(usable))))
+	}
 }
